@@ -270,19 +270,18 @@ def isPh : Tsk FKey → Bool
   | .alias (.ph _) => true
   | _ => false
 
-/-- the writes of one iteration of `for _expr in self.exprs`; `nested i m` is the sub-graph of a nested
-    `Fused` member for partition `i` as it is merged into the enclosing dict -/
-def blockOf (dag : Dag) (index : Nat) (nested : Nat → Node → List (FKey × Tsk FKey)) (mn : Nat) :
+/-- the writes of one iteration of `for _expr in self.exprs`; `nested m` is the sub-graph of a nested
+    `Fused` member as it is merged into the enclosing dict -/
+def blockOf (dag : Dag) (index : Nat) (nested : Node → List (FKey × Tsk FKey)) (mn : Nat) :
     List (FKey × Tsk FKey) :=
   match getNode dag mn with
   | none => []
   | some m =>
     if m.members ≠ [] then
-      -- i = 0 if self._broadcast_dep(_expr) else index
-      -- subgraph, name = _expr._task(i)[1:3]
+      -- subgraph, name = _expr._task(index)[1:3]
       -- graph.update({key: task for key, task in subgraph.items() if not _is_dependency_placeholder(task)})
-      -- graph[(name, i)] = name
-      nested (ixOf m index) m ++ [(FKey.part m.name (ixOf m index), Tsk.alias (FKey.top m.name))]
+      -- graph[(name, index)] = name
+      nested m ++ [(FKey.part m.name index, Tsk.alias (FKey.top m.name))]
     else
       -- elif self._broadcast_dep(_expr): graph[(name, 0)] = _expr._task(0) else graph[(name, index)] = _expr._task(index)
       [plainWrite dag m index]
@@ -291,11 +290,11 @@ def blockOf (dag : Dag) (index : Nat) (nested : Nat → Node → List (FKey × T
     (a later write to the same key wins).  The sub-graph of a nested group is merged without the
     entries that alias the nested group's dependencies to its placeholders.
     `fuel` bounds the nesting depth. -/
-def fusedWrites (dag : Dag) : Nat → Nat → Node → List (FKey × Tsk FKey)
-  | 0, _, _ => []
-  | fuel+1, index, f =>
+def fusedWrites (dag : Dag) (index : Nat) : Nat → Node → List (FKey × Tsk FKey)
+  | 0, _ => []
+  | fuel+1, f =>
     [(FKey.top f.name, Tsk.alias (FKey.part (f.members.headD 0) index))] ++
-    f.members.flatMap (blockOf dag index (fun i m => (fusedWrites dag fuel i m).filter (fun w => !isPh w.2))) ++
+    f.members.flatMap (blockOf dag index (fun m => (fusedWrites dag index fuel m).filter (fun w => !isPh w.2))) ++
     phWrites dag f index
 
 def lastWrite {κ} [DecidableEq κ] {β} (ws : List (κ × β)) (k : κ) : Option β :=
@@ -304,7 +303,7 @@ def lastWrite {κ} [DecidableEq κ] {β} (ws : List (κ × β)) (k : κ) : Optio
 /-- the sub-graph handed to `Fused._execute_task`.  Nesting depth is bounded by `f.name + 1`:
     a `Fused` expression is created after its members, so names decrease along nesting. -/
 def fusedGraph (dag : Dag) (f : Node) (index : Nat) : Graph FKey :=
-  lastWrite (fusedWrites dag (f.name + 1) index f)
+  lastWrite (fusedWrites dag index (f.name + 1) f)
 
 /-- the positional arguments after `(Fused._execute_task, graph, name, …)`:
     `self._blockwise_arg(dep, index)` for every dependency -/
